@@ -696,8 +696,17 @@ class Fn:
         """like expr_operand at block path[idx], but a plain local merged from several definitions (phi) is resolved to the
         definition that is the last one executed on `path` (copy chains are followed along the path)"""
         for _ in range(12):
-            if not (op['k'] in ('copy', 'move') and not op['p']['pr']):
+            if not (op['k'] in ('copy', 'move')):
                 break
+            pr = op['p']['pr']
+            comp = None
+            if pr:
+                # `(x as V).i` / `x.i` where the definition of x executed on this path is an aggregate: take that component
+                flds = [e for e in pr if e['k'] == 'field']
+                if len(flds) == 1 and all(e['k'] in ('field', 'downcast') for e in pr):
+                    comp = flds[0]['i']
+                else:
+                    break
             l = op['p']['l']
             found = None
             j = idx
@@ -724,7 +733,22 @@ class Fn:
             if k == 'T':
                 return self._def_tree(next(di for di, d in enumerate(self._defs()) if d[1] == path[j] and d[2] == 'T'), 80)
             r = st['r']
+            if comp is not None:
+                if r['k'] == 'agg' and comp < len(r['ops']) and (r.get('ak') in ('adt', 'tuple', None) or True) and r['ops'][comp].get('k') in ('copy', 'move', 'const'):
+                    if r['ops'][comp]['k'] == 'const':
+                        return self.expr_operand(r['ops'][comp], path[j], k)
+                    op, idx, i = r['ops'][comp], j, k
+                    continue
+                if r['k'] == 'use' and r['o']['k'] in ('copy', 'move') and not r['o']['p']['pr']:
+                    op = {'k': 'copy', 'p': {'l': r['o']['p']['l'], 'pr': pr}}
+                    idx, i = j, k
+                    continue
+                break
             if r['k'] == 'use' and r['o']['k'] in ('copy', 'move') and not r['o']['p']['pr']:
+                op, idx, i = r['o'], j, k
+                continue
+            if r['k'] == 'use' and r['o']['k'] in ('copy', 'move') and all(e['k'] in ('field', 'downcast') for e in r['o']['p']['pr']) \
+                    and len([e for e in r['o']['p']['pr'] if e['k'] == 'field']) == 1:
                 op, idx, i = r['o'], j, k
                 continue
             return self.expr_rvalue(r, path[j], k)
@@ -2227,7 +2251,7 @@ def ret_trees_core(f):
     return out
 
 
-def inline_new_helpers(P, baseline, max_depth=4, max_blocks=120):
+def inline_new_helpers(P, baseline, max_depth=4, max_blocks=300):
     """inline calls to local non-closure functions that are not in `baseline` (set of fn keys), then turn callback calls
     with a known target into direct calls (closures given to an inlined helper are inlined as well);
     returns list of (caller, callee)"""
